@@ -429,10 +429,10 @@ Apply(s, a) ==
 PromotingOps == {"insert", "try_insert", "get", "get_entry", "get_lru", "touch", "mutate"}
 ReadOps      == {"peek", "peek_entry", "peek_lru", "peek_mru", "contains", "len",
                  "is_empty", "current_size", "max_size", "capacity", "debug",
-                 "iter", "keys", "values", "clone"}
+                 "iter", "keys", "values", "clone", "clone_from"}
 CapacityOps  == {"reserve", "try_reserve", "shrink_to", "shrink_to_fit"}
 EvictingOps  == {"insert", "mutate", "set_max_size"}
-RebuildOps   == CapacityOps \cup {"clone"}
+RebuildOps   == CapacityOps \cup {"clone", "clone_from"}
 NoHashOps    == {"peek_lru", "peek_mru", "clear", "debug"} \cup IterKinds
 
 -----------------------------------------------------------------------------
